@@ -1,6 +1,7 @@
 package main
 
 import (
+	"sort"
 	"flag"
 	"fmt"
 	"os"
@@ -47,6 +48,7 @@ func devMain(args []string) {
 	verbose := fs.Bool("v", false, "print proved obligations too")
 	doReplay := fs.Bool("replay", false, "replay refuted obligations on the real code")
 	lite := fs.Bool("lite", false, "with -dump: print the instantiated quantifier-free query")
+	cand := fs.Bool("cand", false, "print the candidate model of the quantifier-free weakening")
 	fs.Parse(args)
 	t0 := time.Now()
 	w, err := LoadWorld(fs.Args(), nil)
@@ -89,6 +91,19 @@ func devMain(args []string) {
 					fmt.Println("     model:", o.Model)
 				} else {
 					fmt.Println("     candidate counterexample from the quantifier-free weakening")
+					if *cand {
+						dir, _ := os.MkdirTemp("", "pvc-cand-")
+						m, _ := getModel(o.CandQuery, r.Ctx.ModelSymbols(o.CandQuery), dir, 1, o.CandSolver)
+						os.RemoveAll(dir)
+						var ks []string
+						for k := range m {
+							ks = append(ks, k)
+						}
+						sort.Strings(ks)
+						for _, k := range ks {
+							fmt.Printf("       %s = %s\n", k, m[k])
+						}
+					}
 				}
 				if *doReplay {
 					rr := tryReplay(w, violation{obl: o, fn: r, reason: "refuted"})
